@@ -174,6 +174,14 @@ def work(args):
         res["hist"][src] = res["hist"].get(src, 0) + 1
         if case.get("warm"):
             res["hist"]["with-warm-up-queries"] = res["hist"].get("with-warm-up-queries", 0) + 1
+        if isinstance(case, dict) and "ops" in case:
+            try:
+                import spec as _spec
+                for b in _spec.merge_branches(case):
+                    res["hist"]["merge-branch:" + b] = res["hist"].get("merge-branch:" + b, 0) + 1
+                res["hist"]["ids:" + str(case.get("ids", "int"))] = res["hist"].get("ids:" + str(case.get("ids", "int")), 0) + 1
+            except Exception:  # noqa
+                pass
         for o in outs:
             if isinstance(o, str) and o.startswith("E:"):
                 res["hist"]["out:" + o] = res["hist"].get("out:" + o, 0) + 1
